@@ -202,7 +202,13 @@ def diffs (c : Case) (p : Pred) (o : Obs) : List (String × String) :=
   -- with concurrent finishers the place and kind of the single finisher event is not predicted
   let strip (l : List String) := if conc then l.filter (fun e => !isFinisher e) else l
   let opProp := if c.op == "iter" then "C14" else "C15"
-  (if p.returns != o.returns then [(opProp, s!"returns: model {p.returns} impl {o.returns}")] else []) ++
+  -- a disagreement that is only about which of "context done" / "transaction done" is
+  -- reported first concerns the context and transaction properties, not the protocol
+  let norm (l : List String) := l.map fun r => if r == "txDone" then "ctx" else r
+  let precedenceOnly := norm p.returns == norm o.returns
+  (if p.returns != o.returns then
+     (if precedenceOnly then [("C20", s!"error precedence: model {p.returns} impl {o.returns}"), ("C12", "error precedence")]
+      else [(opProp, s!"returns: model {p.returns} impl {o.returns}")]) else []) ++
   (if strip plog != strip o.events then [("C13", s!"events: model {plog} impl {o.events}")] else []) ++
   (if !conc && (c.op != "iter" || c.calls.contains "close") && p.inUse != o.inUse
     then [("C13", s!"inUse: model {p.inUse} impl {o.inUse}")] else []) ++
